@@ -1162,6 +1162,9 @@ func (e *sxEval) stmt(s ast.Stmt) *sxReturn {
 		e.bad("branch %s", t.Tok)
 	case *ast.EmptyStmt:
 	default:
+		if emptyDefer(s) {
+			return nil
+		}
 		e.bad("statement %T not modelled", s)
 	}
 	return nil
@@ -1431,4 +1434,14 @@ func splitShape(pkg *packages.Package, fd *ast.FuncDecl, widths []int) string {
 		ofs += w
 	}
 	return ""
+}
+
+// emptyDefer: `defer func() {}()` — a deferred function literal without statements does nothing.
+func emptyDefer(s ast.Stmt) bool {
+	d, ok := s.(*ast.DeferStmt)
+	if !ok || len(d.Call.Args) != 0 {
+		return false
+	}
+	fl, ok := ast.Unparen(d.Call.Fun).(*ast.FuncLit)
+	return ok && fl.Body != nil && len(fl.Body.List) == 0
 }
